@@ -80,10 +80,10 @@ def check_case(case, stats=None, K=oracle.K_QUICK, known=None):
         if fell:
             m.halted = "end"
         kind, d = compare.compare_src_vm(it, m)
-        if kind == "mismatch" and "d5-arg-shape" in case.get("features", []):
+        if kind == "mismatch" and ("d5-arg-shape" in case.get("features", []) or "nested-def" in case.get("features", [])):
             kind = "skipped"
             if stats is not None:
-                stats.discarded["source-comparison-skipped(F-D5 shape)"] += 1
+                stats.discarded["source-comparison-skipped(F-D5/F-D36 shape)"] += 1
         if kind == "mismatch":
             sig, extra = oracle.attribute(res, es, case["pool"], compare.vm_budget(it.steps), K)
             if sig is None or sig.startswith("C07:fallthrough"):
@@ -112,7 +112,7 @@ def cases(draw):
     # d5_args: the region/halting oracle does not depend on source semantics, so the aliasing shape of
     # open finding F-D5 (a writable global passed by bare name) may be generated; for such programs the
     # comparison with the source interpreter is skipped
-    cfg = programs.Cfg(terminating_main=True, terminating_with_funcs=True, main_stmts=3, max_funcs=3, d5_args=draw(programs.st.booleans()))
+    cfg = programs.Cfg(terminating_main=True, terminating_with_funcs=True, main_stmts=3, max_funcs=3, d5_args=draw(programs.st.booleans()), nested_defs=True)
     c = draw(programs.program_cases(cfg))
     c["opts"] = VECTORS[draw(programs.st.integers(0, len(VECTORS) - 1))]
     return c
